@@ -630,6 +630,11 @@ pub fn run_sim<S, R>(
         };
         // Teardown: drop every remaining task in creation order, no preemption.
         sim.set_preempt(false);
+        if horizon_reached {
+            // nothing was runnable and no timer was due before the horizon: the clock jumped
+            // there from the last quiescent point, and this is one more such point
+            sim.log(EvKind::Idle);
+        }
         sim.log(EvKind::Note { what: "teardown", a: 0, b: 0 });
         let n = sim.tasks.borrow().len();
         for id in 0..n {
